@@ -221,8 +221,22 @@ func (ts *TermStore) Fresh(prefix string, w int) *Term {
 	return ts.Var(fmt.Sprintf("%s!%d", prefix, ts.varSeq), w)
 }
 
+// VarRange returns the named variable with a declared range; if the same name was
+// declared with another range before, the hull of both is kept (callers add the
+// exact range to the path condition when it is tighter than the hull).
 func (ts *TermStore) VarRange(name string, w int, lo, hi uint64) *Term {
 	v := ts.Var(name, w)
+	if v.hasRange {
+		if lo < v.lo {
+			v.lo = lo
+			v.umaxC = 0
+		}
+		if hi > v.hi {
+			v.hi = hi
+			v.umaxC = 0
+		}
+		return v
+	}
 	v.lo, v.hi, v.hasRange = lo, hi, true
 	return v
 }
